@@ -539,6 +539,15 @@ end render
 section c11
 variable {V P : Type} [PropsLike P] [Inhabited V]
 
+/-- `set_primary_service`: every service's flag := (its type = the chosen type) -/
+def Accessory.setPrimary (a : Accessory V P) (typ : String) : Accessory V P :=
+  { a with services := a.services.map (fun sv => { sv with primary := some (sv.typ == typ) }) }
+
+/-- apply `f` to the accessory a script names (1 = top level, else the bridge's dict key) -/
+def Db.modAcc (s : Db V P) (aid : Nat) (f : Accessory V P → Accessory V P) : Db V P :=
+  if aid = STANDALONE_AID then { s with main := f s.main }
+  else { s with bridged := s.bridged.map (fun ka => if ka.1 = aid then (ka.1, f ka.2) else ka) }
+
 inductive Op11 (V P : Type) where
   | setValue (o : Nat) (vres : Option V)
   | clientUpdate (o : Nat) (vres : Option V) (cbRaises : Bool)
@@ -546,6 +555,8 @@ inductive Op11 (V P : Type) where
   | setDisplay (o : Nat) (n : Option String)
   | setGetter (o : Nat) (b : Bool)
   | setAvailable (aid : Nat) (b : Bool)
+  /-- `acc.set_primary_service(svc)` with a service of type `typ` -/
+  | setPrimary (aid : Nat) (typ : String)
   /-- GET /accessories (`get_accessories(include_value)`) -/
   | readAll (incl : Bool) (g : Nat → Option V)
   /-- GET /characteristics?id=… -/
@@ -562,8 +573,8 @@ def Db.step11 (s : Db V P) : Op11 V P → Db V P × Out11 V P
   | .overrideProps o ov => (s.modChar o (·.overrideProps ov), .none)
   | .setDisplay o n => (s.modChar o (·.setDisplay n), .none)
   | .setGetter o b => (s.modChar o (·.setGetter b), .none)
-  | .setAvailable aid b =>
-    ({ s with bridged := s.bridged.map (fun ka => if ka.1 = aid then (ka.1, { ka.2 with available := b }) else ka) }, .none)
+  | .setAvailable aid b => (s.modAcc aid (fun a => { a with available := b }), .none)
+  | .setPrimary aid typ => (s.modAcc aid (·.setPrimary typ), .none)
   | .readAll incl g => match s.renderCached incl g with | (r, s') => (s', .accessories r)
   | .readChars ids g => match s.handleGet ids g with | (r, s') => (s', .chars r)
 
